@@ -27,7 +27,7 @@ N_THETA = N_OMEGA = None      # sizes of the layout tables of harness/C04_record
 REC_FINDINGS = (('theta_repeat_member', 'theta_update'), ('theta_repeat_low_init', 'theta_update'),
                 ('theta_repeat_fix', 'theta_update'), ('theta_fix_inside_bounds', 'theta_update'),
                 ('theta_remove_counts_tokens', 'theta_remove'), ('omega_split_fixed_repeat', 'omega_update'),
-                ('omega_remove_counts_tokens', 'omega_remove'), ('omega_remove_glues_next_record', 'omega_remove'))
+                ('omega_remove_counts_tokens', 'omega_remove'))
 
 
 def _table_sizes(thorough):
